@@ -1718,17 +1718,21 @@ def targeted_search(ck: Check, failing: list[str], log) -> list[dict]:
             ins = [{'t': 'unitary', 'width': width, 'radix': radix,
                     'style': 'haar'}]
         elif kind == 'state':
+            # |1..1> gets through the one-qudit search at levels 2-3 (see jobs_for)
             ins = [{'t': 'state', 'width': width, 'radix': radix,
-                    'style': 'random'}]
+                    'style': 'one' if int(lvl[1:]) >= 2 else 'random'}]
         else:
             ins = [{'t': 'system', 'width': width, 'radix': radix,
                     'npairs': 1}]
         if width > 2 and kind != 'circuit':
             continue
+        if kind == 'state' and width >= 2 and int(lvl[1:]) in (2, 3):
+            continue        # minutes per compilation (residual cost floor of state targets)
         jobs.append({'tag': f'search:{name}', 'kind': kind, 'inputs': ins,
                      'model': model, 'level': int(lvl[1:]),
                      'ms': int(ms[2:]), 'thr': None, 'cseed': None,
-                     'expect': None, 'rseed': rng.randrange(2 ** 31)})
+                     'expect': None, 'rseed': rng.randrange(2 ** 31),
+                     'local': bool(os.environ.get('VERIF_PIPE_LOCAL'))})
     if not jobs:
         return []
     log(f'targeted search: {len(jobs)} compile() calls')
